@@ -40,6 +40,20 @@ def gen_series(rng, n, style=None):
             x = v if (i > n // 3 or rng.random() < 0.5) else v * (1 + rng.randrange(-3, 4) / 100.0)
             out.append([1600000000000 + i * 60000, x, x, x, x, float(rng.randrange(1, 64))])
         return out, style
+    if style in ('noisy_then_flat', 'flat_then_noisy'):
+        # fractional (not dyadic) noisy prices followed / preceded by a halted market on a round value: sums carried across windows keep the
+        # rounding residue of prices that have left the window, a windowed value must not
+        base = rng.choice([100.0, 64.0, 2500.0])
+        flat_from, flat_to = (n // 2, n) if style == 'noisy_then_flat' else (0, n // 2)
+        out = []
+        for i in range(n):
+            if flat_from <= i < flat_to:
+                o = c = hi = lo = base
+            else:
+                o = base * (1 + rng.uniform(-0.03, 0.03)); c = base * (1 + rng.uniform(-0.03, 0.03))
+                hi = max(o, c) * (1 + rng.uniform(0, 0.01)); lo = min(o, c) * (1 - rng.uniform(0, 0.01))
+            out.append([1600000000000 + i * 60000, o, c, hi, lo, float(rng.randrange(1, 64))])
+        return out, style
     scale = {'big': 1048576.0, 'tiny': 1 / 1024.0}.get(style, 1.0)
     p = 100.0
     out = []
@@ -48,6 +62,8 @@ def gen_series(rng, n, style=None):
             o = c = hi = lo = p
         else:
             o = p
+            if style in ('walk', 'spiky', 'trend', 'big', 'tiny') and rng.random() < 0.25:
+                o = max(1.0, p + rng.choice([-4, -2, -1, 1, 2, 4]) * 0.25)          # the open is not the previous close: a gap
             step = {'walk': rng.randrange(-8, 9), 'trend': rng.randrange(-2, 9), 'flat': rng.choice([0, 0, 0, 1, -1]), 'alternating': (4 if i % 2 else -4),
                     'spiky': rng.choice([0, 1, -1, 30, -30]), 'big': rng.randrange(-8, 9), 'tiny': rng.randrange(-8, 9)}[style]
             c = max(1.0, o + step * 0.25)
@@ -173,6 +189,12 @@ def variants(sig, rng):
             sel[name] = rng.choice([1, 2]) if name == 'devtype' else rng.choice([0, 1, 2, 3, 4, 5, 9, 12])
     if sel:
         v.append(sel)
+    # "mode"/"method" selectors switch between different formulas: every value is its own variant (values the function rejects are skipped by the caller)
+    for name, prm in sig.parameters.items():
+        if isinstance(prm.default, int) and not isinstance(prm.default, bool) and (name.endswith('mode') or name.endswith('method') or name == 'kind'):
+            for val in range(0, 6):
+                if val != prm.default:
+                    v.append({name: val})
     return v
 
 
